@@ -162,7 +162,7 @@ theorem wc_missing_normal (fs : Fs) (p r : Bytes) (ha : isAbs p = true) (h0 : (0
 /-! ### the two branches of `weakly_canonical`, each with the open in a later snapshot -/
 
 theorem readFile_some (fs : Fs) (p d : Bytes) (h : readFile fs p = some d) : ∃ l, kwalk fs false p = .ok (l, .file d) := by
-  unfold readFile at h
+  rw [readFile_eq] at h
   have hnf : (!Gen.Assets.openNoFollow) = false := by decide
   rw [hnf] at h
   split at h
